@@ -126,7 +126,7 @@ def lived(f, salt=0):
     """a field as the checks should meet it: not fresh from the constructor but with a past - derived fields were made from it
     and used (afterlife), its values were written in place with reads in between (rewrite_in_place).  Which of the two
     happens is a deterministic function of `salt`; the field is exactly what it was."""
-    k = int(salt) % 4
+    k = int(salt) % 5
     if k == 1:
         afterlife(f, 0)
     elif k == 2:
@@ -134,4 +134,35 @@ def lived(f, salt=0):
     elif k == 3:
         afterlife(f, 0)
         rewrite_in_place(f)
+    elif k == 4:
+        away_and_back(f)
+    return f
+
+
+def away_and_back(f):
+    """The mesh of the field is translated in place, everything that can be derived from the field is READ there (exports,
+    norm, cell centres, integrals), and the mesh is translated back.  Done only when the floats return bit for bit (predicted
+    with the same additions), so the field is exactly what it was; whatever the library memoised at the far position is
+    stale now.  (Seeded change C17-12 memoised the exported DataArray and dropped it only in the `array` / `vdims` setters.)"""
+    import numpy as np
+    m = f.mesh
+    regs = [m.region] + list(m.subregions.values())
+    if any(r.pmin.dtype.kind != "f" for r in regs):
+        return f
+    v = tuple(4.0 * float(e) for e in m.region.edges)
+    for r in regs:
+        for p in (r.pmin, r.pmax):
+            if not np.array_equal(np.add(np.add(p, v), tuple(-x for x in v)), p):
+                return f
+    try:
+        m.translate(v, inplace=True)
+    except Exception:  # noqa: BLE001  (a refusal is C13's business)
+        return f
+    for read in (lambda: f.to_xarray(), lambda: f.norm, lambda: f.mean(), lambda: f.integrate(), lambda: m.cells, lambda: m.vertices,
+                 lambda: m.dV, lambda: list(m)[:1], lambda: f.to_vtk() if m.region.ndim == 3 else None, lambda: f.orientation):
+        try:
+            read()
+        except Exception:  # noqa: BLE001  (reads only; nothing is judged here)
+            pass
+    m.translate(tuple(-x for x in v), inplace=True)
     return f
